@@ -182,6 +182,19 @@ fn tag_query(q: &mut ast::Query) {
 }
 
 impl RelationToQueryTranslator for SimTranslator {
+    /// The stock rendering prints an infinite float as `inf` (a tau that overflowed), which the
+    /// engine reads as a column name: an out-of-range literal is the engine's spelling of it.
+    fn format_float_value(&self, value: f64) -> ast::Expr {
+        let text = if value == f64::INFINITY {
+            "9e999".to_string()
+        } else if value == f64::NEG_INFINITY {
+            "-9e999".to_string()
+        } else {
+            format!("{}", value)
+        };
+        ast::Expr::Value(ast::Value::Number(text, false))
+    }
+
     fn function(
         &self,
         function: &expr::function::Function,
